@@ -140,11 +140,14 @@ def blank_for(case):
         c2.pop('_ref', None)
         return blank_for(c2)
     if case['op'] == 'mul' and a.get('cls') == 'Matrix3' and b is not None and not b.get('numer'):
-        # Matrix3 * scalar returns the scalar operand: its own mask
-        if b['src'] == 'qube':
-            return mask_bits(b.get('mask', 'F'), b['shape'])
-        if b['src'] == 'ma':
-            return mask_bits(b.get('mask', 'F'), b['shape'])
+        # Matrix3 * scalar returns the scalar operand broadcast over the leading axes: its mask, broadcast
+        if b['src'] in ('qube', 'ma'):
+            out = bcast_lead(a['shape'], b['shape'])
+            if out is None:
+                return None
+            ma = np.array(mask_bits(a.get('mask', 'F'), a['shape']), dtype=bool).reshape(a['shape'])
+            mb = np.array(mask_bits(b.get('mask', 'F'), b['shape']), dtype=bool).reshape(b['shape'])
+            return [bool(x) for x in (np.broadcast_to(ma, out) | np.broadcast_to(mb, out)).ravel()]
     return None
 
 
@@ -268,8 +271,10 @@ def py_floordiv(x, y):
 
 def reference(case):
     r = reference0(case)
-    if r is not None and r[0] == 'ok' and 'blank' in r[1] and all(r[1]['blank']):
-        r[1]['kind'] = None          # every element is (expected to be) masked: no value whose kind could be observed
+    if r is not None and r[0] == 'ok' and 'blank' in r[1] and all(r[1]['blank']) and \
+            (case['op'] in ('pow', 'arctan2') or case['op'] in MATHFN):
+        # ** with an exceptional 0-D result (masked_single keeps the operand's kind) / nothing observable
+        r[1]['kind'] = None
     return r
 
 
@@ -305,7 +310,7 @@ def reference0(case):
         A = scalarised(norm_qube(a)) if qa else norm_raw(a, 0, 0, 'Scalar')
         B = scalarised(norm_qube(b)) if qb else norm_raw(b, 0, 0, 'Scalar')
         if op == 'mul':
-            return ref_mul(A, B)
+            return ref_mul(A, B, bool_b=(qb and b.get('cls') == 'Boolean'))
         if op in ('div', 'floordiv', 'mod'):
             return ref_div(op, A, B)
         if op == 'pow':
@@ -387,10 +392,19 @@ def units_unspecified(A, B):
     return (A.cls in NO_UNITS and B.units is not None) or (B.cls in NO_UNITS and A.units is not None)
 
 
-def ref_mul(A, B):
+def ref_mul(A, B, bool_b=False):
     na, nb = len(A.numer), len(B.numer)
     if A.cls == 'Matrix3' and nb == 0 and A.isq:
-        return None        # documented special case "Matrix3 times Scalar returns the same Scalar": not a NumPy product
+        # documented special case "Matrix3 times Scalar returns the same Scalar" (rotating a scalar): the scalar operand
+        # itself at every leading index, the leading shapes broadcasting like in any other product
+        if A.denom and B.denom:
+            return None
+        out, idx = loop_lead(A, B)
+        vals = np.zeros(out + B.denom)
+        for i in idx:
+            vals[i] = B.vals[lead_index(B.lead, i, out)]
+        return ('ok', {'cls': None if bool_b else B.cls, 'kind': None if bool_b else B.kind, 'lead': out,
+                       'numer': [], 'denom': B.denom, 'vals': vals, 'blank': blank_of(A, B, out, idx)})
     if units_unspecified(A, B):
         return None
     if A.denom and B.denom:
@@ -550,6 +564,9 @@ def ref_unary(op, A):
                        'vals': np.abs(A.vals), 'blank': blank})
     if A.cls != 'Scalar':
         return None
+    if op == 'sign' and A.denom and A.units is None:
+        return ('ok', {'cls': 'Scalar', 'kind': A.kind, 'lead': A.lead, 'numer': [], 'denom': A.denom,
+                       'vals': np.sign(A.vals), 'blank': blank})
     if A.denom or A.units is not None:
         return None                          # unit rules of the math functions: C12
     with np.errstate(all='ignore'):
